@@ -45,6 +45,11 @@ def main(pid):
     if "825 passed" not in t or "failed" in t:
         print("SUITE REGRESSION - investigate (commits are in /repo; revert with git reset --hard if needed)")
         return 1
+    b = sh(sys.executable, "-m", "harness.tools.baseline_suite", cwd=str(VERIF))
+    print(b.stdout.strip())
+    if b.returncode != 0:
+        print("BASELINE REGRESSION - investigate")
+        return 1
     fp = VERIF / "findings" / f"{pid}.json"
     if fp.exists():
         s = fp.read_text()
